@@ -61,6 +61,8 @@ Definition Oscal w (s : Q) : Oper (WS w) (WS w) := op_scal (WS w) s.
 Definition Omult w (v : list Q) : Oper (WS w) (WS w) := op_mult (WS w) v.
 Definition Osquare w : Oper (WS w) (WS w) := op_square (WS w).
 Definition Omat w1 w2 (m : list (list Q)) : Oper (WS w1) (WS w2) := op_matrix Qsqrt w1 w2 m.
+Definition Opw w1 w2 (A B : Oper (WS w1) (WS w2)) : Oper (WS w1) (WS w2) := op_pwprod A B.
+Definition Orecip w : Oper (WS w) (WS w) := op_recip Qsqrt w.
 Definition Oshift w1 w2 (A : Oper (WS w1) (WS w2)) (t : list Q) : Oper (WS w1) (WS w2) :=
   op_shift (S1:=WS w1) (S2:=WS w2) A t.
 Definition Ocomp w1 w2 w3 (A : Oper (WS w2) (WS w3)) (B : Oper (WS w1) (WS w2)) : Oper (WS w1) (WS w3) :=
@@ -68,10 +70,13 @@ Definition Ocomp w1 w2 w3 (A : Oper (WS w2) (WS w3)) (B : Oper (WS w1) (WS w2)) 
 
 Inductive ilip := INan | IInf | IFin (c : Q).
 
+(* c_x2 ...: the SAME operator objects (G = f.gradient, D = f.derivative(x)) evaluated again:
+   c_grad2 = G(x2), c_grad1b = G(x) once more afterwards, c_val2 = f(x2), c_deriv2 = D(x2) *)
 Record case := mkCase {
   c_w : list Q; c_e : fx c_w;
   c_x : list Q; c_d : list Q;
-  c_val : Q; c_grad : list Q; c_deriv : Q; c_lip : ilip; c_lin : bool; c_kind : kind }.
+  c_val : Q; c_grad : list Q; c_deriv : Q; c_lip : ilip; c_lin : bool; c_kind : kind;
+  c_x2 : list Q; c_val2 : Q; c_grad2 : list Q; c_grad1b : list Q; c_deriv2 : Q }.
 
 Definition atol : Q := 1 # 1000000000000.
 Definition rtol : Q := 1 # 1000000000.
@@ -101,7 +106,12 @@ Definition check (k : case) : bool :=
   && Qclose atol rtol (c_deriv k) (derivative e x d)
   && lip_ok (c_lip k) (lipschitz e)
   && beq (c_lin k) (is_linear e)
-  && kind_eqb (c_kind k) (kind_of e).
+  && kind_eqb (c_kind k) (kind_of e)
+  && (let x2 : car (WS (c_w k)) := c_x2 k in
+      Qclose atol rtol (c_val2 k) (value e x2)
+      && Qsclose atol rtol (c_grad2 k) (gradient e x2)
+      && Qsclose atol rtol (c_grad1b k) (gradient e x)
+      && Qclose atol rtol (c_deriv2 k) (derivative e x x2)).
 
 (* which of the conjuncts fail (for diagnosing a failing case by hand) *)
 Definition diagnose (k : case) : list bool :=
@@ -113,13 +123,18 @@ Definition diagnose (k : case) : list bool :=
    Qclose atol rtol (c_deriv k) (derivative e x d);
    lip_ok (c_lip k) (lipschitz e);
    beq (c_lin k) (is_linear e);
-   kind_eqb (c_kind k) (kind_of e)].
+   kind_eqb (c_kind k) (kind_of e);
+   Qclose atol rtol (c_val2 k) (value e (c_x2 k : car (WS (c_w k))));
+   Qsclose atol rtol (c_grad2 k) (gradient e (c_x2 k : car (WS (c_w k))));
+   Qsclose atol rtol (c_grad1b k) (gradient e x);
+   Qclose atol rtol (c_deriv2 k) (derivative e x (c_x2 k : car (WS (c_w k))))].
 
 (* ---- SeparableSum(f1, f2) on ProductSpace(S1, S2) ---- *)
 Record case2 := mkCase2 {
   k_w1 : list Q; k_w2 : list Q; k_e1 : fx k_w1; k_e2 : fx k_w2;
   k_x1 : list Q; k_x2 : list Q; k_d1 : list Q; k_d2 : list Q;
-  k_val : Q; k_g1 : list Q; k_g2 : list Q; k_deriv : Q; k_lip : ilip; k_lin : bool }.
+  k_val : Q; k_g1 : list Q; k_g2 : list Q; k_deriv : Q; k_lip : ilip; k_lin : bool;
+  k_y1 : list Q; k_y2 : list Q; k_h1 : list Q; k_h2 : list Q (* same gradient object at a second point *) }.
 
 Definition check2 (k : case2) : bool :=
   let P := sprod Qsqrt (WS (k_w1 k)) (WS (k_w2 k)) in
@@ -131,7 +146,9 @@ Definition check2 (k : case2) : bool :=
   && Qsclose atol rtol (k_g1 k) (fst g) && Qsclose atol rtol (k_g2 k) (snd g)
   && Qclose atol rtol (k_deriv k) (derivative e x d)
   && lip_ok (k_lip k) (lipschitz e)
-  && beq (k_lin k) (is_linear e).
+  && beq (k_lin k) (is_linear e)
+  && (let y : car P := (k_y1 k, k_y2 k) in
+      Qsclose atol rtol (k_h1 k) (fst (gradient e y)) && Qsclose atol rtol (k_h2 k) (snd (gradient e y))).
 
 (* ---- MoreauEnvelope of L2NormSquared / L1Norm: gradient only (the code has no _call) ---- *)
 Definition prox_l2sq (sigma : Q) (x : list Q) : list Q := vscal (1 / (1 + 2 * sigma))%num x.
@@ -143,7 +160,8 @@ Definition Lmoreau_l1 w (sigma : Q) : Leaf (WS w) :=
   leaf_moreau (WS w) (fun x : list Q => wdot w (map nabs x) (ones w)) (prox_l1 sigma) sigma.
 
 Record case3 := mkCase3 { m_w : list Q; m_l : Leaf (WS m_w); m_x : list Q; m_d : list Q;
-                          m_grad : list Q; m_deriv : Q; m_lip : ilip; m_lin : bool }.
+                          m_grad : list Q; m_deriv : Q; m_lip : ilip; m_lin : bool;
+                          m_x2 : list Q; m_grad2 : list Q }.
 Definition check3 (k : case3) : bool :=
   let e : fx (m_w k) := FLeaf (m_l k) in
   let x : car (WS (m_w k)) := m_x k in
@@ -151,4 +169,12 @@ Definition check3 (k : case3) : bool :=
   Qsclose atol rtol (m_grad k) (gradient e x)
   && Qclose atol rtol (m_deriv k) (derivative e x d)
   && lip_ok (m_lip k) (lipschitz e)
-  && beq (m_lin k) (is_linear e).
+  && beq (m_lin k) (is_linear e)
+  && Qsclose atol rtol (m_grad2 k) (gradient e (m_x2 k : car (WS (m_w k)))).
+
+(* ---- NumericalGradient(f, method, step) on 1-d tensor spaces ---- *)
+Record case4 := mkCase4 { g_riesz : bool; g_w : list Q; g_e : fx g_w; g_m : ngmethod; g_h : Q; g_x : list Q; g_out : list Q;
+                          g_x2 : list Q; g_out2 : list Q }.
+Definition check4 (k : case4) : bool :=
+  Qsclose atol rtol (g_out k) (numgrad_v Qsqrt (g_riesz k) (g_w k) (g_e k) (g_m k) (g_h k) (g_x k))
+  && Qsclose atol rtol (g_out2 k) (numgrad_v Qsqrt (g_riesz k) (g_w k) (g_e k) (g_m k) (g_h k) (g_x2 k)).
